@@ -107,6 +107,12 @@ def main():
                 res = call(case, backend)
                 d, raw = digest(res)
                 err = None
+                # independent of every cache: the reference semantics of the assignment (dyadic inputs)
+                problem = engine.make_problem(case)
+                _, ref = engine.reference(case, problem)
+                diff = engine.compare_values(taco.validate(*raw), ref)
+                if diff is not None:
+                    err = f"result differs from the reference semantics at {diff[0]}: got {diff[1]}, want {diff[2]}"
             except Exception as exc:  # noqa: BLE001
                 d, raw, err = None, None, f"{type(exc).__name__}: {exc}"[:200]
                 res = None
@@ -167,6 +173,21 @@ def main():
             for op_id, c, backend, miss in ops:
                 if not miss and op_id % 2 == 0:
                     expected[op_id] = digest(call(c, backend))[0]
+        if spec.get("cffi_burst") and rnd < spec["cffi_burst"]:
+            # all threads compile a DISTINCT never-seen problem through the cffi back end at once
+            burst = []
+            for tid in range(n_threads):
+                c = fresh_case(f"B{seed}x{rnd}x{tid}", r, "a(i) = b(i) * c(i) + b(i)" if tid % 2 else "a(i) = b(i) + c(i)")
+                if c is not None:
+                    op_counter += 1
+                    all_ops[op_counter] = (c, "cffi")
+                    burst.append([(op_counter, c, "cffi", True)])
+            bb = threading.Barrier(len(burst))
+            ths = [threading.Thread(target=client, args=(tid, burst[tid], bb, [])) for tid in range(len(burst))]
+            for t in ths:
+                t.start()
+            for t in ths:
+                t.join()
         mon.set_events(TOOL, mon.events.LINE)
         barrier = threading.Barrier(n_threads)
         threads = [threading.Thread(target=client, args=(tid, per_thread[tid], barrier, [])) for tid in range(n_threads)]
